@@ -300,6 +300,7 @@ prop("C10",
      assumptions=[
          "operation sizes from {0,1,7,4096,2^40}; search depth 6 (7 thorough) from the cleared state with `clear` as a transition; the invariant is re-established from scratch (whole-history reference) in every reached state, so longer sequences are covered inductively per step plus four explicit histories of 5000 (20000) operations",
          "cross-thread clause: 2-3 (4 thorough, preemption bound 3) threads with 1-3 operations each under loom, every op-level interleaving; thread counts up to 8 are not enumerated",
+         "reading of `operations performed`: a request counts whether or not the wrapped allocator satisfies it (the tally is taken before the request is forwarded, for all four entry points alike); transitions therefore include alloc / alloc_zeroed / realloc requests that the mock refuses (null) over sizes {0,7,2^40}, with the same expected figures",
      ],
      technique="explicit-state breadth-first search with de-duplication over the real ThreadAllocInfo driven through the real AllocProfiler<Mock>; whole-history reference model in every state; loom DPOR for the per-thread clause",
      text="BFS over the real thread-local tally: transitions are alloc / alloc_zeroed / dealloc / realloc over five sizes plus clear, applied by the real profiler after setting the thread-local to the state; in every reached state all four (count, bytes) pairs, the live balances and the peak count / peak size must equal a reference recomputed from the whole history (prefix-balance scan). Under loom, threads drive the real profiler concurrently and each thread's tally must equal its own script.",
